@@ -69,7 +69,7 @@ Qed.
 (* unfolding equations of the mutual fixpoints *)
 Lemma ceval_node ds rec stack s t es :
   ceval ds rec stack s (ENode t es) =
-  match ceval_list ds rec stack s t O es with
+  match ceval_list ds rec stack s t O [] es with
   | None => None
   | Some (s1, None) => Some (s1, None)
   | Some (s1, Some rs) =>
@@ -79,16 +79,16 @@ Lemma ceval_node ds rec stack s t es :
       end
   end.
 Proof. reflexivity. Qed.
-Lemma ceval_list_cons ds rec stack s t i e rest :
-  ceval_list ds rec stack s t i (ECons e rest) =
+Lemma ceval_list_cons ds rec stack s t i prev e rest :
+  ceval_list ds rec stack s t i prev (ECons e rest) =
   match ceval ds rec stack s e with
   | None => None
   | Some (s1, None) => Some (s1, None)
   | Some (s1, Some r) =>
-      match precheck t i r with
+      match precheck t i prev r with
       | Some err => Some (push_err err s1, None)
       | None =>
-          match ceval_list ds rec stack s1 t (S i) rest with
+          match ceval_list ds rec stack s1 t (S i) (prev ++ [r]) rest with
           | None => None
           | Some (s2, None) => Some (s2, None)
           | Some (s2, Some rs) => Some (s2, Some (r :: rs))
@@ -98,18 +98,18 @@ Lemma ceval_list_cons ds rec stack s t i e rest :
 Proof. reflexivity. Qed.
 Lemma cexpr_node ds c t es :
   cexpr ds c (ENode t es) =
-  match cexpr_list ds c t O es with
+  match cexpr_list ds c t O [] es with
   | inl p => p
   | inr rs => match combine t es rs with CAbort err => PErr err | COk _ r => POk r end
   end.
 Proof. reflexivity. Qed.
-Lemma cexpr_list_cons ds c t i e rest :
-  cexpr_list ds c t i (ECons e rest) =
+Lemma cexpr_list_cons ds c t i prev e rest :
+  cexpr_list ds c t i prev (ECons e rest) =
   match cexpr ds c e with
   | POk r =>
-      match precheck t i r with
+      match precheck t i prev r with
       | Some err => inl (PErr err)
-      | None => match cexpr_list ds c t (S i) rest with inl p => inl p | inr rs => inr (r :: rs) end
+      | None => match cexpr_list ds c t (S i) (prev ++ [r]) rest with inl p => inl p | inr rs => inr (r :: rs) end
       end
   | p => inl p
   end.
@@ -255,9 +255,9 @@ Section WithDecls.
        exists s' ro, ceval ds rec stack s e = Some (s', ro) /\ good s' /\ trans s s' /\
          (forall r, ro = Some r -> forall c, ext (cache s') c -> cexpr ds c e = POk r) /\
          (ro = None -> errs s' <> [])) /\
-    (forall es stack s t i, good s -> (ns_count s <= k)%nat ->
-       exists s' ro, ceval_list ds rec stack s t i es = Some (s', ro) /\ good s' /\ trans s s' /\
-         (forall rs, ro = Some rs -> forall c, ext (cache s') c -> cexpr_list ds c t i es = inr rs) /\
+    (forall es stack s t i prev, good s -> (ns_count s <= k)%nat ->
+       exists s' ro, ceval_list ds rec stack s t i prev es = Some (s', ro) /\ good s' /\ trans s s' /\
+         (forall rs, ro = Some rs -> forall c, ext (cache s') c -> cexpr_list ds c t i prev es = inr rs) /\
          (ro = None -> errs s' <> [])).
   Proof.
     intros R. apply expr_mutind.
@@ -275,7 +275,7 @@ Section WithDecls.
         intros _. apply push_errs_ne.
     - (* node *)
       intros t es IH stack s G K. rewrite ceval_node.
-      destruct (IH stack s t O G K) as (s1 & ro & E & G1 & T1 & L1 & N1). rewrite E.
+      destruct (IH stack s t O [] G K) as (s1 & ro & E & G1 & T1 & L1 & N1). rewrite E.
       destruct ro as [rs|].
       + destruct (combine t es rs) as [err|w r] eqn:C.
         * exists (push_err err s1), None.
@@ -291,20 +291,20 @@ Section WithDecls.
              rewrite cexpr_node, (L1 rs eq_refl c X1), C. reflexivity.
       + exists s1, None. split5; [reflexivity|exact G1|exact T1|discriminate|intros _; exact (N1 eq_refl)].
     - (* nil *)
-      intros stack s t i G K. exists s, (Some []). cbn.
+      intros stack s t i prev G K. exists s, (Some []). cbn.
       split5; [reflexivity|exact G|apply trans_refl| |discriminate].
       intros rs [= <-] c _. reflexivity.
     - (* cons *)
-      intros e IHe rest IHr stack s t i G K. rewrite ceval_list_cons.
+      intros e IHe rest IHr stack s t i prev G K. rewrite ceval_list_cons.
       destruct (IHe stack s G K) as (s1 & ro & E & G1 & T1 & L1 & N1). rewrite E.
       destruct ro as [r|].
-      + destruct (precheck t i r) as [err|] eqn:P.
+      + destruct (precheck t i prev r) as [err|] eqn:P.
         * exists (push_err err s1), None.
           split5; [reflexivity|now apply good_push| |discriminate|].
           -- eapply trans_trans; [exact T1|apply trans_push].
           -- intros _. apply push_errs_ne.
         * assert (ns_count s1 <= k)%nat as K1 by (pose proof (ns_count_trans _ _ T1); lia).
-          destruct (IHr stack s1 t (S i) G1 K1) as (s2 & ro2 & E2 & G2 & T2 & L2 & N2). rewrite E2.
+          destruct (IHr stack s1 t (S i) (prev ++ [r]) G1 K1) as (s2 & ro2 & E2 & G2 & T2 & L2 & N2). rewrite E2.
           destruct ro2 as [rs|].
           -- exists s2, (Some (r :: rs)).
              split5; [reflexivity|exact G2| | |discriminate].
@@ -471,20 +471,20 @@ Section WithDecls.
     exists s. auto.
   Qed.
 
-  Lemma cexpr_list_inl c es : forall t i p, cexpr_list ds c t i es = inl p -> forall r, p <> POk r.
+  Lemma cexpr_list_inl c es : forall t i prev p, cexpr_list ds c t i prev es = inl p -> forall r, p <> POk r.
   Proof.
-    induction es as [|e rest IH]; intros t i p H r; [discriminate|].
+    induction es as [|e rest IH]; intros t i prev p H r; [discriminate|].
     rewrite cexpr_list_cons in H.
     destruct (cexpr ds c e) as [x|x|r0] eqn:E; try (injection H as <-; discriminate).
-    destruct (precheck t i r0); [injection H as <-; discriminate|].
-    destruct (cexpr_list ds c t (S i) rest) as [q|rs] eqn:E2; [|discriminate].
+    destruct (precheck t i prev r0); [injection H as <-; discriminate|].
+    destruct (cexpr_list ds c t (S i) (prev ++ [r0]) rest) as [q|rs] eqn:E2; [|discriminate].
     injection H as <-. eapply IH; eassumption.
   Qed.
 
   (* ---- success of the pure evaluator visits every identifier *)
   Lemma cexpr_idents c :
     (forall e r, cexpr ds c e = POk r -> forall x, In x (idents e) -> is_decl ds x = true /\ c x <> None) /\
-    (forall es t i rs, cexpr_list ds c t i es = inr rs ->
+    (forall es t i prev rs, cexpr_list ds c t i prev es = inr rs ->
        forall x, In x (idents_list es) -> is_decl ds x = true /\ c x <> None).
   Proof.
     apply expr_mutind.
@@ -492,15 +492,15 @@ Section WithDecls.
     - intros n r H x [<-|[]]. cbn in H. destruct (is_decl ds n); [|discriminate].
       split; [reflexivity|]. destruct (c n); [discriminate|discriminate].
     - intros t es IH r H x I. rewrite cexpr_node in H. change (In x (idents_list es)) in I.
-      destruct (cexpr_list ds c t 0 es) as [p|rs] eqn:E.
+      destruct (cexpr_list ds c t 0 [] es) as [p|rs] eqn:E.
       + exfalso. eapply cexpr_list_inl; eassumption.
       + eapply IH; eassumption.
-    - intros t i rs _ x [].
-    - intros e IHe rest IHr t i rs H x I. rewrite cexpr_list_cons in H.
+    - intros t i prev rs _ x [].
+    - intros e IHe rest IHr t i prev rs H x I. rewrite cexpr_list_cons in H.
       change (In x (idents e ++ idents_list rest)) in I.
       destruct (cexpr ds c e) as [| |r] eqn:E; try discriminate.
-      destruct (precheck t i r); [discriminate|].
-      destruct (cexpr_list ds c t (S i) rest) as [p|rs'] eqn:E2; [discriminate|].
+      destruct (precheck t i prev r); [discriminate|].
+      destruct (cexpr_list ds c t (S i) (prev ++ [r]) rest) as [p|rs'] eqn:E2; [discriminate|].
       apply in_app_or in I. destruct I as [I|I].
       + eapply (IHe r eq_refl); eassumption.
       + eapply IHr; eassumption.
@@ -508,23 +508,23 @@ Section WithDecls.
 
   Lemma cexpr_mono c c' : (forall n r, c n = Some r -> c' n = Some r) ->
     (forall e r, cexpr ds c e = POk r -> cexpr ds c' e = POk r) /\
-    (forall es t i rs, cexpr_list ds c t i es = inr rs -> cexpr_list ds c' t i es = inr rs).
+    (forall es t i prev rs, cexpr_list ds c t i prev es = inr rs -> cexpr_list ds c' t i prev es = inr rs).
   Proof.
     intros M. apply expr_mutind.
     - intros l r H. exact H.
     - intros n r H. cbn in *. destruct (is_decl ds n); [|discriminate].
       destruct (c n) as [r0|] eqn:E; [|discriminate]. now rewrite (M _ _ E).
     - intros t es IH r H. rewrite cexpr_node in *.
-      destruct (cexpr_list ds c t 0 es) as [p|rs] eqn:E.
+      destruct (cexpr_list ds c t 0 [] es) as [p|rs] eqn:E.
       + exfalso. eapply cexpr_list_inl; eassumption.
-      + now rewrite (IH _ _ _ E).
-    - intros t i rs H. exact H.
-    - intros e IHe rest IHr t i rs H. rewrite cexpr_list_cons in *.
+      + now rewrite (IH _ _ _ _ E).
+    - intros t i prev rs H. exact H.
+    - intros e IHe rest IHr t i prev rs H. rewrite cexpr_list_cons in *.
       destruct (cexpr ds c e) as [x|x|r] eqn:E; try discriminate.
       rewrite (IHe r eq_refl).
-      destruct (precheck t i r); [discriminate|].
-      destruct (cexpr_list ds c t (S i) rest) as [q|rs'] eqn:E2; [discriminate|].
-      now rewrite (IHr _ _ _ E2).
+      destruct (precheck t i prev r); [discriminate|].
+      destruct (cexpr_list ds c t (S i) (prev ++ [r]) rest) as [q|rs'] eqn:E2; [discriminate|].
+      now rewrite (IHr _ _ _ _ E2).
   Qed.
 
   (* ---- a topologically sorted cache admits no dependency cycle *)
